@@ -10,6 +10,7 @@
 D5  a register number placed in the low bits of the opcode byte (push/pop/mov imm) has its
     bit 3 carried by a REX prefix, as the full register name in the listing requires
 D6  a displacement is emitted as one byte only where it is known to lie in [-128, 127]
+D7  the displacement-free (mod=0) memory form is emitted only for bases other than rbp / r13
 """
 import os
 import re
@@ -342,6 +343,8 @@ def run(ctx):
     check_rex_roles(db, rep, "D5-REX-ROLES", tnames)
     from x86enc import check_disp8
     check_disp8(db, rep, "D6-DISP8-RANGE")
+    from x86enc import check_mod0_base
+    check_mod0_base(db, rep, "D7-MOD0-BASE")
     d4(db, rep)
 
 
